@@ -144,6 +144,7 @@ HEADER = r'''
 #include <stdexcept>
 #include "mpirxx.h"
 using namespace std;
+extern "C" { void __mpir_verif_hit (int) {} void __mpir_verif_evt (int, long, long, long, long) {} void __mpir_verif_point (int) {} }
 static void pz(const char *tag, int id, mpz_srcptr a) { char *s = mpz_get_str(NULL, 16, a); printf("%s %d %s\n", tag, id, s); free(s); }
 static void pq(const char *tag, int id, mpq_srcptr a) { char *s = mpz_get_str(NULL, 16, mpq_numref(a)); char *d = mpz_get_str(NULL, 16, mpq_denref(a)); printf("%s %d %s/%s\n", tag, id, s, d); free(s); free(d); }
 static void pf_(const char *tag, int id, mpf_srcptr a) { mp_exp_t e; char *s = mpf_get_str(NULL, &e, 16, 0, a); printf("%s %d %s@%ld\n", tag, id, s[0] ? s : "0", (long) e); free(s); }
